@@ -14,7 +14,7 @@ CLAIMS = {
          '[-16384,16383] against the sixteenth-position table, and the sum of exactly mv[0..3]; C MVD_TABLE (folded from const MIR) against the 64 code words of '
          'Table 14, HalfPel::from = floor(2x); D the three candidates selected in each of the 4 x 8 (block index, border class) cases incl. the neighbour block '
          'indices; E median_of over all 13 weak orderings, component-wise for vectors; F zero candidates from intra / not-coded macroblocks (the vector array is zeroed inside the macroblock loop before it is written and recorded); M mv_decode pairs predictor.x with differential.x and predictor.y with differential.y, the MotionVector conversions and addition keep the component order, '
-         'and vector k of a macroblock is mv_decode(picture, options, predict_candidate(.., k), MVD_k) (vectors 2..4 copies of vector 1 without four vectors); MB which bits are the differentials: '
+         'and vector k of a macroblock is mv_decode(picture, options, predict_candidate(.., k), MVD_k) (vectors 2..4 copies of vector 1 without four vectors); W the call sites: every predict_candidate gets predictor_vectors (whole, or from the last group-of-blocks header), the vector array of this macroblock and the macroblocks-per-line term gather gets, every mv_decode the picture being decoded and the options in force; MB which bits are the differentials: '
          'decode_motion_vector reads x then y with MVD_TABLE (UMV code only with PLUSPTYPE), decode_macroblock reads MVD for the inter types and MVD2-4 for the four-vector types of Table 9 (predicates folded over all types).',
     technique='if-conversion + canonical forms + decision-table comparison; constant folding over finite domains; const-table folding', ref='6/C12'),
  'C11': dict(
@@ -24,7 +24,7 @@ CLAIMS = {
          'at their producers; W escape LEVEL width is 7/11 by one bit exactly under Sorenson version 1, else 8, RUN 6 bits; C IntraDc::from_u8 / into_level folded '
          'over all 256 codes; D the DQUANT code table and the update form clamp(q + dq, 1, 31); DQ that update tabulated with Rust cast / overflow semantics, casts as written, '
          'over all 32 x 5 (quantizer, DQUANT) pairs; P the zig-zag cursor of inverse_rle (position = cursor + RUN, abandoned iff position >= 64, next = position + 1) evaluated on the SSA order of its updates for every (cursor, RUN); narrowing / sign-changing casts whose operand range does not fit are obligations like overflows; MB the DQUANT code table, TCOEF against Table 16 and the '
-         'escape forms (8-bit LEVEL, Sorenson v1 7 / 11-bit by flag, 6-bit RUN, LAST) as decision tables of decode_dquant / decode_block. What the coefficient does to decoded samples is C02.',
+         'escape forms (8-bit LEVEL, Sorenson v1 7 / 11-bit by flag, 6-bit RUN, LAST) as decision tables of decode_dquant / decode_block; C10.E no stored coefficient is dropped by the sparse-block classification; C02.D/H decode_block is told the decoder options and picture header that select the escape form and its result is dequantised with the in-force quantizer. What the coefficient does to decoded samples is C02.',
     technique='def-use expression -> canonical-form equality against the written-out formula; interval abstract interpretation; constant folding of finite tables', ref='6/C11'),
  'C09': dict(
     text='Static, all 2^32 patterns x 12 strengths and all sizes: K1 the scalar kernel (helpers inlined, if-converted) has, for each of A,B,C,D, the same '
@@ -68,7 +68,7 @@ CLAIMS = {
          'rollback guard (tabulated on a grid) and two\'s-complement sign extension. F: start-code scan (17-bit window == 1, one bit per step, nearest first, bounded by realignment_bits). '
          'G: VLC walk consumes one bit per step and all 6 tables are acyclic/in range/fully reachable (folded from const MIR). H: MSB-first assembly in peek_bits - the loop\'s per-iteration transfer function '
          '(bits taken k = min(8 - offset, needed); accum := (accum << k) | ((byte << offset) as u8 >> (8 - k)); offset := 0; needed -= k) is extracted as terms and tabulated over every offset, count and byte for 8-, 16- and 32-bit accumulators, '
-         'with the start state (byte bits_read/8, offset bits_read%8, accum 0), the stop condition and the returned value. Exactly-once delivery as a history property follows from A-H by induction over the operations (DESIGN.md 11.11), which is an argument, not a machine step.',
+         'with the start state (byte bits_read/8, offset bits_read%8, accum 0), the stop condition and the returned value. W: the width prologue of peek_bits evaluated for every bits_needed in 0..=W+8, W = 8/16/32 (too wide -> InternalDecoderError, zero width -> Ok(0) consuming nothing, else one ensure_bits(bits_needed) before the loop). Closed forms are tabulated with Rust integer semantics (truncating division / remainder, wrapping casts). Exactly-once delivery as a history property follows from A-H by induction over the operations (DESIGN.md 11.11), which is an argument, not a machine step.',
     technique='mod/ref effect analysis, dominance/control-dependence rules, def-use expression pattern matching, closed forms and the peek loop transfer function tabulated on normalised terms, const-table folding', ref='6/C14'),
  'C15': dict(
     text='Static, all inputs: where the reader stands after a successful decode is decided on the MIR of the decode closure. M7 the macroblock loop has '
@@ -76,7 +76,7 @@ CLAIMS = {
          'resynchronisation probe decode_gob / decode_picture are union transactions whose Ok(None) arm leaves the loop without consuming, only outside '
          'Sorenson mode (is_sorenson() = decoder_options.contains(SORENSON_SPARK_BITSTREAM)); T7/T4 a failed macroblock or block parse consumes nothing; CM exactly one commit(), after the loop, on every Ok path, with no '
          'reader movement between loop exit and commit; and what commit() and read_bits() do to the position (C14 E: commit = drain(0..pos/8); pos %= 8, C14 C: read = peek + skip) '
-         're-run here. PS decode_picture skips 17 + the stuffing count recognize_start_code reports; MC mb_per_line and mb_height are ceil(dim/16) for every u16 dimension (tabulated). '
+         're-run here. PS decode_picture skips 17 + the stuffing count recognize_start_code reports; MC mb_per_line and mb_height are ceil(dim/16) for every u16 dimension (tabulated); MB / C12.C the macroblock and block layer consume exactly the bits of their syntax elements (VLC tables against Tables 7, 8, 13, 14, 16; Table 9 predicates; decision tables of decode_macroblock / decode_dquant / decode_motion_vector / decode_block). '
          'Hence on success the position is the end of the last macroblock and padding is never read.',
     technique='loop/dominance/control-dependence rules with structural expression matching over MIR; mod/ref effects', ref='6/C15'),
  'C04': dict(
@@ -85,7 +85,7 @@ CLAIMS = {
          'of the decode closure: last_picture := Some(TR) always, reference_picture := Some(TR) exactly under !is_disposable, := None only for I '
          'pictures and before the Some-assignment, insert(TR, picture) always, TR = the stored header\'s temporal_reference; R3 macroblock syntax '
          'per picture type (found D6, fixed); R4 TR-key aliasing between a disposable picture and the reference (D7: known finding, not repaired); '
-         'R5 who-may-write the three fields + structure of cleanup_buffers; R6 is_disposable folded over all 9 variants, Sorenson code 2; R7 cleanup_buffers() runs after every state update of the call (no update reachable after it); R8 a new decoder has no last / reference picture and an empty store. '
+         'R5 who-may-write the three fields + structure of cleanup_buffers; R6 is_disposable folded over all 9 variants, Sorenson code 2; R7 cleanup_buffers() runs after every state update of the call (no update reachable after it); R8 a new decoder has no last / reference picture and an empty store; C03.UC a not-coded macroblock is rejected only in an I picture - P and disposable P pictures are treated alike (the arm executed on the facts for every picture type code). '
          'Rejected pictures changing nothing is C05. Pixel-level consequences follow from C03.',
     technique='control-dependence / dominance rules, def-use tracing, mod/ref effects and conditional constant propagation over MIR', ref='6/C04'),
  'C05': dict(
@@ -103,7 +103,7 @@ CLAIMS = {
          'zig-zag scan, a bijection; D the macroblock body: block k of macroblock n is decoded with CBP entry k and dequantised into its plane\'s level array at '
          'origin + (8(k&1), 8(k>>1)) (chroma origin/2), origin = ((n mod mbpl)16, (n div mbpl)16), mbpl = ceil(w/16) tabulated over all u16 widths, with the blocks-per-line '
          'idct_channel later uses with that array, that plane\'s samples and row length; level arrays 4 mbpl mbh / mbpl mbh; inverse_rle\'s block index; H quantizer tracking '
-         '(clamp(q + dquant, 1, 31) once per coded macroblock before its six blocks); and re-run on this tree: dequantisation form, INTRADC mapping and the zig-zag cursor (C11 A, C, P), the IDCT '
+         '(clamp(q + dquant, 1, 31) once per coded macroblock before its six blocks; no other in-loop definition than GQUANT of a parsed group-of-blocks header); decode_block is told the decoder options, the header of the picture being decoded and this macroblock\'s type; and re-run on this tree: dequantisation form, INTRADC mapping and the zig-zag cursor (C11 A, C, P), the IDCT '
          'clauses (C10 A, B, C, E); '
          'MB the macroblock / block layer syntax: the VLC tables TCOEF, MCBPC (I-pictures) and CBPY folded from const MIR and compared as code word -> event maps with Tables 16, 7 and 13 of H.263, the Table 9 type predicates folded over all six types, and the decision tables of decode_macroblock, decode_dquant and decode_block (consuming reads with table / width, presence condition and order; every field of the result; the coefficient appended per event; LAST ending the loop; Sorenson v1 escape widths) compared as Boolean functions with the syntax of 5.3 / 5.4; Plane allocation is C13 P.',
     technique='const-table folding; call-site agreement over loop-index-normalised def-use terms (polynomial normal form, closed forms tabulated over the full u16 domain with Rust integer semantics); dominance for update-before-use; decision-table extraction + semantic DNF comparison for the macroblock / block syntax', ref='6/C02'),
@@ -114,8 +114,8 @@ CLAIMS = {
          'rounding +2 div 4) with exactly their selecting conditions, source = pos + (dx, dy) + (i, j), target cropping, and the 8-sample fast path only under the guard that '
          'excludes clamping; G the six gather_block call sites (vector k at block offset k, chroma vector = average_sum_of_mvs of the four, Cb<-Cb, Cr<-Cr, row lengths of the '
          'plane read, only for inter macroblocks); N every use of the reference goes through ok_or(..)?; U not-coded macroblock = Inter + zero vectors + no residual, early end '
-         'filled with Inter / zero vectors, gather after the macroblock loop and before the IDCT; and, re-run on this tree: vector reconstruction, chroma rounding, candidate '
-         'table, median, zero neighbours (C12 A, B, D, E, F) and the residual-add form of every IDCT arm (C10 C); MB the macroblock / block layer syntax of an inter macroblock: COD, MCBPC against Table 8, '
+         'filled with Inter / zero vectors, gather after the macroblock loop and before the IDCT; UC a not-coded macroblock is an error exactly in I pictures among I / P / disposable P; and, re-run on this tree: vector reconstruction, chroma rounding, candidate '
+         'table, median, zero neighbours, mv_decode pairing and call-site wiring (C12 A, B, D, E, F, M, W) and the residual-add form of every IDCT arm (C10 C); MB the macroblock / block layer syntax of an inter macroblock: COD, MCBPC against Table 8, '
          'CBPY against Table 13 and complemented for inter types, DQUANT / MVD / MVD2-4 presence by the Table 9 predicates (folded over all types), MVD x then y, TCOEF against Table 16 and the escape forms, as decision tables compared with the syntax of 5.3 / 5.4.',
     technique='loop-index-normalised def-use terms vs written-out forms; path conditions (bit-slice DNF) for form selection; folding over finite domains; control-dependence guards; dominance / reachability for order', ref='6/C03'),
  'C06': dict(
@@ -127,7 +127,7 @@ CLAIMS = {
          'picture-type codes, CPFMT/EPAR/CPCFC/ETR/UUI/ELNUM/RPSMF/TRPI/BCI/TRB/DBQUANT fields, Sorenson size and type codes, the PEI loop shape (L), which read '
          'feeds which Picture field (found D8 PTYPE bit-9 polarity and D9 9-bit PHI: fixed). I: the inherited option sets; B: flag constants disjoint; '
          'H: DecodedPicture stores the parsed header and the format in force unmodified, sizes its planes from it, nobody else writes them; S: standard format sizes, a custom format its own indications, and no size exactly for Reserved or a zero dimension. '
-         'RPRP is present exactly in RPR mode or when a previous picture exists whose format differs (|p| p.format != format checked). Not decided: which of the two SSS bits is RECTANGULAR_SLICES; that read_bits returns MSB-first integers is C04/C05/C14 territory.',
+         'G: the sub-parsers that take more than the reader are handed what the syntax ties them to (decode_trb: custom clock present; decode_elnum_rlnum: this PLUSPTYPE\'s followers; decode_plusptype: decoder options and the previous picture\'s options). RPRP is present exactly in RPR mode or when a previous picture exists whose format differs (|p| p.format != format checked). Not decided: which of the two SSS bits is RECTANGULAR_SLICES; that read_bits returns MSB-first integers is C04/C05/C14 territory.',
     technique='decision-table extraction from MIR (path conditions in a bit-slice domain, reaching definitions, set-insertion model of |=) + semantic DNF comparison with a written-out specification table; who-may-write effect rule; const folding', ref='6/C06'),
  'C10': dict(
     text='PARTIAL BY DESIGN: the Annex A error statistics (peak error 1, mean-square and mean error bounds over 60 000 random blocks) quantify over f32 rounding and are '
